@@ -118,12 +118,14 @@ theorem C09_add_free_accepts (s : St) (o : Obj) (refs : List Nat) (h : Inv s) (h
 /-- A static / dynamic obstacle that carries a lanelet assignment (`initial_shape_lanelet_ids`), with a free id: it is
     stored and its id reserved exactly like an obstacle without assignment (same state), but the call then registers
     it on its lanelets and raises AttributeError when one of them does not exist while the network has lanelets — an
-    operation that fails half-way.  The invariant holds afterwards all the same (C09_inv_step). -/
+    operation that fails half-way (`Role.onLanelets`: only the static and the dynamic branch of `add_objects` register;
+    an environment / phantom obstacle is never registered, so its outcome is ok).  The invariant holds afterwards all the
+    same (C09_inv_step). -/
 theorem C09_add_obstacle_with_lanelets (s : St) (r : Role) (k : Nat) (on refs : List Nat) (hf : k ∉ allIds s) (h : Inv s) :
     (step s (.add (.obstacleOn r k on) refs)).1 = (step s (.add (.obstacle r k) refs)).1 ∧
     Contains (step s (.add (.obstacleOn r k on) refs)).1 (.obstacle r k) ∧
     (step s (.add (.obstacleOn r k on) refs)).2
-      = if s.net.lanelets.isEmpty ∨ ∀ x ∈ on, x ∈ lids s.net then .ok else .err .attr := by
+      = if r.onLanelets = false ∨ s.net.lanelets.isEmpty ∨ ∀ x ∈ on, x ∈ lids s.net then .ok else .err .attr := by
   have hk : k ∉ s.idSet := fun hx => hf ((((inv_iff s).mp h).1.2 k).mp hx)
   refine ⟨addObstacleOn_fst s r k on refs, ?_, ?_⟩
   · show Contains (addObj s (.obstacleOn r k on) refs).1 _
@@ -131,6 +133,17 @@ theorem C09_add_obstacle_with_lanelets (s : St) (r : Role) (k : Nat) (on refs : 
     exact (addObj_fresh s (.obstacle r k) refs h (by simp) (by simp) ⟨by simp [objIds], by simpa [objIds] using hk⟩).2
   · show (addObj s (.obstacleOn r k on) refs).2 = _
     rw [addObstacleOn_snd, if_neg hk]
+
+/-- An environment / phantom obstacle is never registered on lanelets (the branches of `add_objects` for these two roles
+    only mark the id and store the obstacle, scenario.py:754-759 — read off the translated source, tie `T09.tie_add_objects`):
+    whatever lanelet assignment the object carries, the call behaves exactly like the add of an obstacle without one — same
+    state, same outcome, for every state (no invariant needed). -/
+theorem C09_add_unregistered_role_ignores_assignment (s : St) (r : Role) (k : Nat) (on refs : List Nat)
+    (hr : r.onLanelets = false) :
+    step s (.add (.obstacleOn r k on) refs) = step s (.add (.obstacle r k) refs) := by
+  show addObstacleOn s r k on = onMarked (mark s k) fun s1 => putObstacle s1 r k
+  unfold addObstacleOn onMarked
+  rcases mark s k with ⟨s1, _ | e⟩ <;> simp [hr]
 
 /-- Frame of an accepted add (anything but a whole network): every object that was contained is still contained
     (`Keeps`: obstacles per role, lanelets by id, signs, lights, intersections with their incomings), the multiset of
